@@ -426,11 +426,14 @@ class Run:
             cmd += ["--drop-unused-functions"]
         cmd += [gb]
         outp = os.path.join(jd, "out.json")
-        rc, so, se, w = sh(cmd, timeout=job.get("timeout", 300), mem_gb=job.get("mem_gb", 8), stdout_path=outp)
+        # job timeouts are written for an idle 16-core machine; they are scaled (default x2.5) so that a loaded machine does
+        # not turn a job that terminates into an 'undecided' (VERIF_TIMEOUT_SCALE=1 restores the written values)
+        tmo = int(job.get("timeout", 300) * float(os.environ.get("VERIF_TIMEOUT_SCALE", "2.5")))
+        rc, so, se, w = sh(cmd, timeout=tmo, mem_gb=job.get("mem_gb", 8), stdout_path=outp)
         res["cmds"].append(" ".join(cmd))
         res["solver_s"] = round(w, 2)
         if rc == 124:
-            res["reason"] = "cbmc timeout after %ss" % job.get("timeout", 300)
+            res["reason"] = "cbmc timeout after %ss" % tmo
             res["wall_s"] = time.time() - t0
             return res
         try:
